@@ -118,3 +118,12 @@ Proof. vm_compute. reflexivity. Qed.
    does not recover ("u", ">>?") *)
 Lemma urlsafe_credentials_lost_l : server_recovers (authorization urlsafe_alphabet [117] [62; 62; 63]) = None.
 Proof. vm_compute. reflexivity. Qed.
+
+(* the unguarded statement is false: ("a:b", "c") is a witness *)
+Lemma credentials_recoverable_refuted_l :
+  exists u p, scalars u = true /\ scalars p = true /\
+              server_recovers (authorization std_alphabet u p) <> Some (u, p).
+Proof.
+  exists [97; 58; 98], [99]. split; [reflexivity|]. split; [reflexivity|].
+  rewrite colon_in_username_l. discriminate.
+Qed.
